@@ -173,14 +173,14 @@ def translate(cfg, outdir):
         if over is not None:
             enum_defs.append("#define %s (%d)" % (cn, over))
             continue
-        if elast not in enum_cache:
+        if et not in enum_cache:
             vals = None
             for u in units:
                 vals = enum_values(astq.query(u["tu"], et if "::" in et else elast), elast)
                 if vals:
                     break
-            enum_cache[elast] = vals
-        vals = enum_cache[elast]
+            enum_cache[et] = vals
+        vals = enum_cache[et]
         if not vals or name not in vals:
             raise ExtractionError("cannot resolve enum constant %s::%s" % (et, name))
         enum_defs.append("#define %s (%d)" % (cn, vals[name]))
